@@ -70,6 +70,14 @@ def check_export(adoc):
         got[m["name"]] = {k: sorted((m.get(k) or {}).keys()) for k in ("pub_procs", "pub_types", "pub_vars", "pub_absints")}
     if got != exp:
         bad.append(f"modules.json lists {got}, A's modules and public entities are {exp}")
+    # the plain entity lists of a module hold nothing that another project cannot access
+    for m in mods:
+        public = set().union(*[set((m.get(k) or {}).keys()) for k in ("pub_procs", "pub_types", "pub_vars", "pub_absints")])
+        for k in ("functions", "subroutines", "interfaces", "absinterfaces", "types", "variables"):
+            for x in m.get(k) or []:
+                nm = (x.get("name") if isinstance(x, dict) else str(x)).lower()
+                if nm not in public:
+                    bad.append(f"modules.json exports {k[:-1]} '{nm}' of module {m['name']}, which is not a public entity of that module")
     urls = []
     json_urls(mods, urls)
     for where, name, url, obj in urls:
@@ -123,6 +131,14 @@ def check_b_links(bdoc, adoc, must_be_external, must_be_local):
         if target not in ext_seen.get(name, set()):
             bad.append(f"B never links '{name}' to A's {target} (links into A for that name: {sorted(ext_seen.get(name, []))})")
     return bad, n_ext
+
+
+def export_with_private_display():
+    """A documented with display: private still exports only what is accessible"""
+    with site.site(A_FILES, META_A + "display: public\n         private\n         protected\n", proj="A") as (pa, sa):
+        if not sa.startswith("ok"):
+            return [f"building A failed: {sa}"]
+        return check_export(os.path.join(pa, "doc"))
 
 
 def end_to_end():
@@ -245,6 +261,7 @@ def search(parts=("end_to_end", "broken", "absolute", "remote")):
     for part in parts:
         if part == "end_to_end":
             bad, n = end_to_end()
+            bad = bad or export_with_private_display()
         elif part == "broken":
             bad = broken_descriptions()
         elif part == "absolute":
